@@ -474,7 +474,11 @@ func (c *daneDelivery) PrepareConn(ctx context.Context, mx string) {
 		return
 	}
 
-	c.tlsaFut = future.New()
+	// The lookup goroutine must complete the future created for this MX, not
+	// whatever c.tlsaFut points to when it finishes (PrepareConn is called
+	// again for the next MX candidate if this one cannot be used).
+	tlsaFut := future.New()
+	c.tlsaFut = tlsaFut
 
 	go func() {
 		defer func() {
@@ -484,7 +488,7 @@ func (c *daneDelivery) PrepareConn(ctx context.Context, mx string) {
 			}
 		}()
 
-		c.tlsaFut.Set(c.discoverTLSA(ctx, dns.FQDN(mx)))
+		tlsaFut.Set(c.discoverTLSA(ctx, dns.FQDN(mx)))
 	}()
 }
 
